@@ -284,6 +284,24 @@ CHECKS += [
      "cloud layers need larger fakes). GIL bytecode interleaving is the memory model."},
 ]
 
+CHECKS += [
+    {"id": "C38", "engine": "enum", "level": "exploration",
+     "technique": "bounded-exhaustive enumeration of generated programs x subrun configurations on the real scheduler, reference-interpreter oracle",
+     "text": "Every generated program of size <=2 (quick) / <=3 (thorough) plus 4 larger shapes, run as subrun(e, executor='default') twice on one "
+     "SQLite repository for (new_execution, cache, check_valid) configurations; both runs equal the reference interpreter; the sub-scheduler "
+     "body runs exactly once in run 1 and again in run 2 whenever only CSE/ultimate hits could not apply; with new_execution=False the job tree "
+     "has exactly the two top-level executions and every job chains to its execution root.",
+     "note": "The sub-scheduler needs its own thread: programs and configurations are enumerated exhaustively, completion timing is not controlled."},
+    {"id": "C32", "engine": "enum", "level": "exploration",
+     "technique": "bounded-exhaustive enumeration of call-sets, arrays x indices, attempt histories (explicit scratch-file states vs reference model), "
+     "job names, and two-session reunite scenarios against an in-process fake of the Batch API running the real oneshot entry point",
+     "text": "All call-sets from a value alphabet x cache flag as single jobs; every array of <=3 elements x every index (each index environment variable); "
+     "every ok/fail attempt history of length <=4 (quick) / <=6 (thorough) on one scratch directory; 10 prefixes x 9 hashes x array flag; every "
+     "ordered subset of 3 evaluations x single/array grouping x finished-subset x resubmitted-subset x job-name prefixes through the real "
+     "AWSBatchExecutor submit / gather_inflight_jobs / process-status code.",
+     "note": "oneshot runs in-process rather than in a container; the Batch API is a fake; monitor/arrayer threads are covered by C10/C11, not here."},
+]
+
 _ALL = [f"C{i:02d}" for i in range(1, 39)]
 _claimed = {c["id"] for c in CHECKS}
 _REASONS = {}
